@@ -38,7 +38,7 @@ CASE_TIMEOUT = {'quick': 200, 'thorough': 400}
 
 def plan(tier, seed):
     n = 160 if tier == 'quick' else 2400
-    kinds = ['mesh', 'mesh', 'long', 'mesh', 'raman', 'multiband', 'mesh', 'long']
+    kinds = ['mesh', 'mesh', 'long', 'mesh', 'raman', 'multiband', 'mesh', 'long', 'p2p', 'mesh']
     cases = [{'idx': i, 'kind': kinds[i % len(kinds)]} for i in range(n)]
     k0 = len(cases)
     for j, kf in enumerate(['kf-raman-upstream-amp', 'kf-split-lumped', 'kf-multiband-bare', 'kf-raman-upstream-amp',
@@ -211,7 +211,7 @@ def check_design(ctx, ej, tj, equipment, network):
         if e['uid'] in byuid:
             if parts:
                 ctx.violation('split-and-kept', f'{e["uid"]}: both the original fibre and split spans exist')
-            if L >= max_len and e['type'] == 'Fiber':
+            if L > max_len and e['type'] == 'Fiber':
                 ctx.violation('long-fibre-not-split', f'{e["uid"]}: {L} m >= max length {max_len} m but not split')
             elif abs(byuid[e['uid']].params.length - L) > 1e-6:
                 ctx.violation('fibre-length-changed', f'{e["uid"]}: length changed by design')
@@ -300,6 +300,9 @@ def build_inputs(rng, kind):
     if kind == 'raman':
         tj = P.raman_topology(rng)
         sim = {'raman_params': {'flag': True, 'result_spatial_resolution': 10e3, 'solver_spatial_resolution': 100}}
+        return ej, tj, sim
+    if kind == 'p2p':
+        tj = G.gen_p2p(rng, long_fibers=rng.random() < 0.3, lumped=rng.random() < 0.3, per_freq_loss=rng.random() < 0.3)
         return ej, tj, sim
     tj, _ = G.gen_topology(rng, max_sites=6 if kind == 'mesh' else 4, max_spans=4 if kind == 'long' else 3,
                            long_fibers=(kind == 'long'), per_degree=rng.random() < 0.4,
